@@ -34,7 +34,7 @@ func init() {
 			"a race needs both accesses executed: the race detector sees exactly what the workload performs",
 			"writes that store the value already present are invisible to the snapshot (visible to the race detector only)",
 		},
-		Cases:         func(tier string) int { return pick(tier, 1400, 30000) },
+		Cases:         func(tier string) int { return pick(tier, 1900, 30000) },
 		Run:           c09Run,
 		Binary:        "race",
 		Aux:           c09Aux,
@@ -164,12 +164,13 @@ var c09Mutators = []struct{ name, form string }{
 
 func c09TemplateSource(r *fw.RNG, k int) (src, label string) {
 	mu := c09Mutators[k%len(c09Mutators)]
-	lits := []string{"'(3 1 2)", "'(5 4 3 2 1)", "[9 7 8]", "'(2 1)", "'(4 4 1 9 0 3)"}
+	lits := []string{"'(3 1 2)", "'(5 4 3 2 1)", "[9 7 8]", "'(2 1)", "'(4 4 1 9 0 3)", "(eval ''(3 1 2))", "(car '((7 3 5) x))", "(cdr (quote (0 8 6 7)))"}
 	lit := lits[(k/len(c09Mutators))%len(lits)]
 	mform := strings.ReplaceAll(mu.form, "V", "v")
 	shape := (k / (len(c09Mutators) * len(lits))) % 4
 	pre := `(defmacro sort-args-m (&rest xs) (stable-sort < xs) (quasiquote (quote (unquote xs))))
 (defmacro lit-m (&rest xs) (quasiquote (list (unquote-splicing (stable-sort < xs)))))
+(set 'literal-zoo (list ''(4 5 (6)) '''z (quote (quote (1 (2)))) '[1 [2 3]] '(a "s" 1.5 (b c)) #^(+ % 1) (function car) '#^(list %1 %2) ''[7 8]))
 `
 	var body string
 	switch shape {
